@@ -213,7 +213,7 @@ fn view_summary(v: &dyn ValueView) -> J {
     })
 }
 
-fn views(_sc: &J) -> J {
+fn views(sc: &J) -> J {
     use liquid_core::model::ValueCow;
     let samples: Vec<Value> = vec![
         Value::Nil, Value::scalar(0i64), Value::scalar(-7i64), Value::scalar(1.5f64), Value::scalar(true), Value::scalar(false), Value::scalar(""), Value::scalar("  "),
@@ -258,6 +258,20 @@ fn views(_sc: &J) -> J {
         for (name, got, base) in concrete {
             if got != base {
                 return json!({"outcome": "violation", "wrapper": name, "value": base, "got": got});
+            }
+        }
+        // strings chosen by the caller (a solver model): every string type must agree with the owned value
+        if let Some(list) = sc.get("strings").and_then(|v| v.as_array()) {
+            for s in list.iter().filter_map(|v| v.as_str()) {
+                let base = view_summary(&Value::scalar(s.to_owned()));
+                let owned: String = s.to_owned();
+                let ks = KString::from_ref(s);
+                let cases: Vec<(&str, J)> = vec![("String", view_summary(&owned)), ("&str", view_summary(&s)), ("KString", view_summary(&ks))];
+                for (name, got) in cases {
+                    if got != base {
+                        return json!({"outcome": "violation", "wrapper": name, "string": s, "value": base, "got": got});
+                    }
+                }
             }
         }
         let objs: Vec<Value> = vec![Value::Object(to_obj(Some(&json!({})))), Value::Object(to_obj(Some(&json!({"a": 1}))))];
